@@ -200,20 +200,22 @@ func ruleContainsFromFirst(c *Ctx, rule string) {
 		return
 	}
 	n := 0
-	for _, s := range m.Sites {
-		isContains := false
-		for _, src := range s.SchemaSrc {
-			if src == "Schema.Contains" {
-				isContains = true
+	// the recursive evaluations against the contains subschema, in the evaluator or in a helper that holds its
+	// array section
+	var sites []*ssa.Call
+	for _, fi := range c.familyInstrs(m.E) {
+		call, ok := fi.I.(*ssa.Call)
+		if !ok || call.Call.StaticCallee() != m.E {
+			continue
+		}
+		for _, a := range call.Call.Args {
+			if c.mentionsField(a, "Schema.Contains", 4) {
+				sites = append(sites, call)
+				break
 			}
 		}
-		if !isContains {
-			continue
-		}
-		site, ok := s.siteInstr().(*ssa.Call)
-		if !ok {
-			continue
-		}
+	}
+	for _, site := range sites {
 		for _, a := range site.Call.Args {
 			ic, ok := a.(*ssa.Call)
 			if !ok || core.CalleeKey(&ic.Call) != "reflect.Value.Index" || len(ic.Call.Args) < 2 {
